@@ -16,7 +16,7 @@ HDR = "x-goog-request-params"
 
 PROFILE = grammar.profile(
     p_routing=0.55, p_http=0.85, p_get=0.9, p_list=0.6, p_update=0.6, p_delete=0.6, p_custom=0.7, p_create=0.5,
-    p_sstream=0.0, p_cstream=0.0, p_bidi=0.0, p_lro=0.0, p_service_config=0.8, p_yaml=0.05,
+    p_sstream=0.35, p_cstream=0.0, p_bidi=0.0, p_lro=0.4, p_raw_op=0.1, p_service_config=0.8, p_yaml=0.05,
     transports=["grpc", "grpc+rest", "grpc+rest"], p_additional_binding=0.4, p_multi_var_path=0.4, p_reserved_path_var=0.5)
 
 BUDGET = {
@@ -25,7 +25,8 @@ BUDGET = {
 }
 REQUIRED_PROBES = ["explicit_rule", "implicit_rule", "no_header_expected", "override_same_key", "nested_field",
                    "value_needs_escaping", "non_matching_value", "empty_value", "header_on_retry_attempt",
-                   "header_on_later_page", "async_header", "extra_trailing_segments", "no_template_param", "rest_header", "rest_header_on_later_page"]
+                   "header_on_later_page", "async_header", "extra_trailing_segments", "no_template_param", "rest_header", "rest_header_on_later_page", "header_on_lro",
+                   "header_on_sstream"]
 SEGS = ["p1", "my-proj", "a b", "é", "x%y", "k=v&z", "seg.1", "~t", "q+r", "UPPER"]
 
 
@@ -178,13 +179,11 @@ def _resource_pattern_for(spec, m, field):
 def candidates(spec):
     out = []
     for fs, s, m in grammar.all_methods(spec):
-        if m.get("client_streaming") or m.get("server_streaming"):
-            continue
+        if m.get("client_streaming"):
+            continue          # (the emitted code sends no routing values for client-streaming calls: no single request exists)
         if find_message(spec, m["input"]) is None:
             continue
-        if m["output"] == ".google.longrunning.Operation" and m.get("lro") is not None:
-            continue
-        out.append((fs, s, m, c07.classify(spec, m)))
+        out.append((fs, s, m, c07.classify(spec, m) if not m.get("server_streaming") else None))
     return out
 
 
@@ -231,6 +230,11 @@ def gen_op(spec, rng, codec, fs, s, m, cls, oid, client):
         val = values.rand_valuation(rng, codec.desc(m["input"]), 0, 2, 0.4)
         op = {"id": oid, "kind": "unary", "service": s["name"], "method": m["name"], "call": {},
               "form": rng.choice(["msg", "dict"]), "request": val}
+        if m.get("server_streaming"):
+            op["kind"] = "sstream"
+        elif m["output"] == ".google.longrunning.Operation":
+            op.update({"kind": "lro", "raw": m.get("lro") is None, "initial_done": True, "op_name": f"projects/p1/operations/{oid}",
+                       "final": {"error": {"code": "ABORTED", "message": "x"}}, "send_metadata": False, "meta_vals": [{}]})
         T, pol, retry_T = c09.call_policy(spec, fs, s, m, {})
         script = []
         codes = pol["codes"] if pol else []
@@ -240,7 +244,10 @@ def gen_op(spec, rng, codec, fs, s, m, cls, oid, client):
         if codes and rng.random() < 0.4:
             for _ in range(rng.randint(1, 2)):
                 script.append({"code": rng.choice(codes)})
-        script.append({"reply": {}})
+        if op["kind"] == "sstream":
+            script = [{"items": [{}]}]           # (stream-start faults: api-core's sync/asyncio retry semantics differ)
+        else:
+            script.append({"reply": {}})
         op["server"] = script
     for f in routed_fields(spec, m):
         mode = rng.choice(["match", "match", "match", "plain", "extra", "short", "other", "empty", "absent", "trailing_slash"])
@@ -266,13 +273,20 @@ def gen_op(spec, rng, codec, fs, s, m, cls, oid, client):
 
 
 def server_factory(run):
+    from . import c08
     paged = c07.server_factory(run)
     plain = engine.scripted_server(run)
+    lro = c08.server_factory(run)
 
     def serve(call):
         op = run.ops.get(call["op"])
         if op is not None and op["kind"] == "paged":
             return paged(call)
+        if op is not None and op["kind"] == "lro":
+            faults = [x for x in (op.get("server") or []) if x.get("code")]
+            if call["n"] <= len(faults):
+                return {"lat": 0.0, "code": faults[call["n"] - 1]["code"]}
+            return lro(call)
         return plain(call)
     return serve
 
@@ -352,6 +366,8 @@ def judge(spec, scenario, history):
         if op["kind"] == "paged" and e["op"] in first_attempt and e["n"] > 1:
             _bump(probes, "header_on_later_page")
         first_attempt.setdefault(e["op"], e)
+        if op["kind"] in ("lro", "sstream"):
+            _bump(probes, "header_on_" + op["kind"])
         if scenario["client"] == "async":
             _bump(probes, "async_header")
         if e.get("tr") == "rest":
